@@ -177,7 +177,7 @@ func cmdCheck(args []string) int {
 			}
 		}
 		for _, r := range out.Results {
-			if !strings.Contains(r.Obl.Name, "/auto:") { // inferred invariants are not part of the specified obligation set
+			if ledgerPinned(r.Obl.Name) { // only obligations that stem from the contract text are pinned
 				lk := cfg.Name
 				if r.Unit.Contract != nil && r.Unit.Contract.Flags["thorough"] {
 					lk += "+thorough"
@@ -238,6 +238,9 @@ func cmdCheck(args []string) int {
 			}
 			if !inRun {
 				continue
+			}
+			if !ledgerPinned(n) {
+				continue // entry written by an earlier version of the ledger
 			}
 			if !seenNames[n] {
 				nObl++
@@ -317,4 +320,21 @@ func cmdCheck(args []string) int {
 		return 1
 	}
 	return 0
+}
+
+// ledgerPinned: the ledger pins the obligations that stem from the contract text
+// (postconditions, lemma assertions, written loop invariants, vacuity covers, "unit encodes").
+// Obligations that stem from the body under contract — one per index, slice, dereference,
+// division, store or call site — legitimately come and go with harmless edits of the code;
+// every one that is generated must still be discharged, but none is required to exist.
+func ledgerPinned(name string) bool {
+	if strings.Contains(name, "/auto:") {
+		return false
+	}
+	for _, k := range []string{"#nopanic:", "#frame", "#pre@"} {
+		if strings.Contains(name, k) {
+			return false
+		}
+	}
+	return true
 }
